@@ -31,7 +31,16 @@ def _anchors():
     return names
 
 
-ANCHORS = _anchors()
+def _known_functions():
+    import json
+    try:
+        return set(json.load(open(os.path.join(os.path.dirname(_HERE), 'rules', 'anchor_names.json')))['names'])
+    except Exception:
+        return None
+
+
+_KNOWN = _known_functions()
+ANCHORS = _anchors() if _KNOWN is None else (_anchors() & _KNOWN)
 
 
 def _json_keys(ctx):
